@@ -1759,13 +1759,16 @@ def c18(ctx):
 
 # ---------------------------------------------------------------------------
 def _sig_equal(x, y, p):
-    """x printed with %.<p>e and read back"""
+    """y must be x correctly rounded to p+1 significant decimal digits (what
+    '%.<p>e' denotes), read back as a double"""
+    from decimal import Decimal, ROUND_HALF_EVEN
     if x == y:
         return True
-    if x == 0 or y == 0:
-        return abs(x - y) < 10.0 ** (-p - 300)
-    e = math.floor(math.log10(abs(x)))
-    return abs(x - y) <= 0.5000001 * 10.0 ** (e - p)
+    d = Decimal(x)
+    if d.is_zero():
+        return y == 0.0
+    q = Decimal(1).scaleb(d.adjusted() - p)
+    return float(d.quantize(q, rounding=ROUND_HALF_EVEN)) == y
 
 
 @prop("C19")
